@@ -23,9 +23,11 @@ use core::num::NonZeroUsize;
 
 pub struct LruCache<K, V> {
     cap: NonZeroUsize,
-    pub s0: Option<(K, V)>,
-    pub s1: Option<(K, V)>,
-    pub s2: Option<(K, V)>,
+    // boxed so that re-ordering moves three pointers, not three entries (measured: with inline
+    // entries of ~180 bytes one Server::handle_request harness was 7 M variables / 33 M clauses)
+    pub s0: Option<Box<(K, V)>>,
+    pub s1: Option<Box<(K, V)>>,
+    pub s2: Option<Box<(K, V)>>,
 }
 
 impl<K, V> core::fmt::Debug for LruCache<K, V> {
@@ -45,9 +47,9 @@ impl<K: Clone, V: Clone> Clone for LruCache<K, V> {
     }
 }
 
-fn hit<K: PartialEq, V>(slot: &Option<(K, V)>, k: &K) -> bool {
+fn hit<K: PartialEq, V>(slot: &Option<Box<(K, V)>>, k: &K) -> bool {
     match slot {
-        Some((key, _)) => key == k,
+        Some(e) => e.0 == *k,
         None => false,
     }
 }
@@ -82,7 +84,10 @@ impl<K: PartialEq, V> LruCache<K, V> {
         if hit(&self.s0, k) {
             true
         } else if hit(&self.s1, k) {
-            core::mem::swap(&mut self.s0, &mut self.s1);
+            // (not mem::swap: its chunked byte loop needs an unwinding bound that grows with the entry size)
+            let hot = self.s1.take();
+            self.s1 = self.s0.take();
+            self.s0 = hot;
             true
         } else if hit(&self.s2, k) {
             let hot = self.s2.take();
@@ -154,19 +159,20 @@ impl<K: PartialEq, V> LruCache<K, V> {
         // push front; `s2` is empty at this point
         self.s2 = self.s1.take();
         self.s1 = self.s0.take();
-        self.s0 = Some((k, v));
+        self.s0 = Some(Box::new((k, v)));
 
         None
     }
 
     pub fn pop_lru(&mut self) -> Option<(K, V)> {
-        if self.s2.is_some() {
+        let e = if self.s2.is_some() {
             self.s2.take()
         } else if self.s1.is_some() {
             self.s1.take()
         } else {
             self.s0.take()
-        }
+        };
+        e.map(|b| *b)
     }
 
     pub fn pop(&mut self, k: &K) -> Option<V> {
@@ -174,7 +180,7 @@ impl<K: PartialEq, V> LruCache<K, V> {
             let hot = self.s0.take();
             self.s0 = self.s1.take();
             self.s1 = self.s2.take();
-            hot.map(|e| e.1)
+            hot.map(|e| (*e).1)
         } else {
             None
         }
@@ -187,7 +193,7 @@ impl<K: PartialEq, V> LruCache<K, V> {
     }
 
     pub fn iter(&self) -> Iter<'_, K, V> {
-        Iter { a: self.s0.as_ref(), b: self.s1.as_ref(), c: self.s2.as_ref() }
+        Iter { a: self.s0.as_deref(), b: self.s1.as_deref(), c: self.s2.as_deref() }
     }
 }
 
